@@ -240,7 +240,7 @@ func mkT[T comparable](name string, l keylock.TLocker[T], conv func(int) T) lock
 	return &tLocker[T]{name: name, l: l, conv: conv, ent: l.(entCounter).VerifEntries}
 }
 
-var primes = []uint64{1, 2, 3, 5, 73, 73, 37, 61, 64, 127, 1009}
+var primes = []uint64{1, 2, 3, 5, 73, 73, 37, 61, 64, 127, 1009, 1031, 4099}
 
 func mkMixed(name string, l keylock.Locker) locker {
 	return &anyLocker{name: name, l: l, mixed: true, ent: l.(entCounter).VerifEntries}
